@@ -454,3 +454,90 @@ def r6(cx):
                      [reach[x][2] for x in reach if reach[x]])
     else:
         cx.passed("cluster::node_registry", "draining-is-final", [x[3] for x in tr], "transitions: %s" % sorted({"%s->%s" % ("|".join(sorted(s)), d) for (s, d, _, _) in tr}))
+
+
+@rule("C19", "R7", "the routing path cannot panic: in every function of cluster:: reachable from route_write, each overflow / bounds / division assert, unwrap / expect and slice or Vec index "
+      "is discharged from a guarding comparison (the panic-site analysis of C17.R1) - a routing call that panics does not terminate on a node")
+def r7(cx):
+    import importlib
+    c17 = importlib.import_module("rules.C17")
+    roots = [k for k in cx.prog.calls if k.startswith(WR)]
+    R = sorted(k for k in cx.prog.reachable_from(roots) if k.startswith(("cluster::", "<cluster::")))
+    if not cx.floor("cluster functions reachable from route_write", len(R), 30):
+        return
+    n = bad = 0
+    for k in R:
+        b = cx.body(k)
+        if b is None:
+            continue
+        for bi, blk in enumerate(b.blocks):
+            if blk.get("cleanup"):
+                continue
+            t = blk["term"]
+            ex = t.get("expn") or {}
+            if ex.get("m") and not ex.get("ml"):
+                continue
+            if t["k"] == "assert":
+                desc = t["akind"]
+            elif t["k"] == "call" and c17.PANIC_CALL.search(t["callee"]):
+                desc = t["callee"].rsplit("::", 2)[-2] + "::" + t["callee"].rsplit("::", 1)[-1]
+            else:
+                continue
+            n += 1
+            why = c17._discharge(cx, b, k, bi, t)
+            if why:
+                cx.passed(k, "panic-site:%s" % desc, [t["sp"]], "discharged: " + why)
+            else:
+                bad += 1
+                cx.violation(k, "panic-site:%s" % desc, "%s: %s in %s can panic during a routing call and no comparison the analysis recognises bounds it on every path (e.g. an index kept from an earlier, "
+                             "longer list): route_write then neither returns a node nor an error" % (t["sp"], desc, named_parent(k).rsplit("::", 2)[-2] + "::" + named_parent(k).rsplit("::", 1)[-1]), [t["sp"]])
+    if not bad:
+        cx.passed("cluster", "routing-path-panic-free", [], "%d functions, %d panic sites (all discharged)" % (len(R), n))
+
+
+@rule("C19", "R8", "eligibility is judged on what the node reported: update_load stores the reported load of a known node on every path (no report is dropped as 'barely different'), because "
+      "can_accept_writes compares exactly that field with the 95 % limit")
+def r8(cx):
+    fk = NR + "NodeRegistry::update_load"
+    ck = cx.prog.code_key(fk)
+    b = cx.body(ck)
+    if b is None:
+        cx.violation(fk, "anchor-missing", "body not found", [])
+        return
+    stores = []
+    for bi, blk in enumerate(b.blocks):
+        if blk.get("cleanup"):
+            continue
+        for si, st in enumerate(blk["stmts"]):
+            p = st["lhs"].get("p") or []
+            if p and isinstance(p[-1], dict) and p[-1].get("n") == "load_percent":
+                o = M.operand_origins(b, st["rv"]["o"], at=(bi, si)) if st["rv"]["k"] == "use" else set()
+                if any(x[0] in ("upvar", "arg") and "load_percent" in str(x[1]) for x in o) and not any(x[0] in ("bin", "call") for x in o):
+                    stores.append((bi, si))
+    if not cx.floor("stores of the reported load", len(stores), 1, ck):
+        return
+    # edges on which the node is known to be absent from the registry
+    absent = set()
+    for bi, blk in enumerate(b.blocks):
+        t = blk["term"]
+        if t["k"] == "switch" and t.get("enum") == "std::option::Option" and not blk.get("cleanup"):
+            dl = t["discr"].get("pl", {}).get("l")
+            src = [st["rv"]["pl"] for st in blk["stmts"] if st.get("lhs", {}).get("l") == dl and st["rv"].get("k") == "discr"]
+            if not src:
+                continue
+            o = M.provenance(b, src[0], at=(bi, len(blk["stmts"]) - 1), adapters=frozenset())
+            direct = [x for x in o if x[0] == "call"]
+            if direct and all(re.search(r"HashMap::<K, V, S(, A)?>::(get|get_mut)$", x[1][1]) and M.strip_unwraps(x[2]) == "" for x in direct):
+                for nme, tg in zip(t["variants"], t["targets"]):
+                    if nme == "None":
+                        absent.add((bi, tg))
+                if "None" not in (t["variants"] or []) and t.get("otherwise") is not None:
+                    absent.add((bi, t["otherwise"]))
+    stored = {(bi, b.succs(bi)[0]) for (bi, si) in stores if b.succs(bi)}
+    rets = [bi for bi, blk in enumerate(b.blocks) if blk["term"]["k"] == "return" and not blk.get("cleanup")]
+    skipping = [r for r in rets if not b.dominated_by_edges(r, stored | absent)]
+    if skipping:
+        cx.violation(fk, "reported-load-is-recorded", "%s: update_load can return for a known node without recording the reported load: the report that crosses the 95 %% limit (e.g. 92 -> 96) is "
+                     "dropped as noise, and every guard keeps handing writes to an overloaded node" % b.sp(skipping[0]), [b.sp(skipping[0])])
+    else:
+        cx.passed(fk, "reported-load-is-recorded", [b.sp(stores[0][0], stores[0][1])])
